@@ -1,7 +1,8 @@
 (** non-vacuity for C13: concrete schemas meeting the hypotheses of the main theorems, on which
     erasure really deletes something and consumer programs really reach the gated mechanisms *)
 From Coq Require Import String List NArith.
-From ApiFu Require Import Base.Sexp Feat.FeaturesModel Feat.FeaturesSpec Feat.FeaturesProofs.
+From ApiFu Require Import Base.Sexp Feat.FeaturesModel Feat.FeaturesSpec Feat.FeaturesProofs Feat.FeaturesReach
+  Feat.FeaturesDocModel Feat.FeaturesDocProofs.
 Import ListNotations.
 Open Scope string_scope.
 Open Scope list_scope.
@@ -76,4 +77,46 @@ Proof. vm_compute. repeat split; reflexivity. Qed.
     (W: every surviving type stays reachable), and false on the orphan witness *)
 Example W_no_orphans :
   excl_orphaned_type W [] = false /\ erase_physical W [] = erase W [] /\ excl_orphaned_type W_orphan [] = true.
+Proof. vm_compute. repeat split; reflexivity. Qed.
+
+(** a document of selection sets over W: the named fragment F1 on J is spread twice inside
+    { i { .. } } (I and J share only the gated implementation G), next to an inline fragment:
+
+      2  k1: i {            6  k4: j {                 7  fragment F1 on J {
+      3    ...F1            9    ... on B {            8    k3: y
+      4    ...F1           10      k5: y }  }             }
+      5    k2: __typename }
+
+    without fa the spread is impossible (reported at the definition, line 7, once per spread) and
+    nothing is executed; with fa the document runs, F1 is collected once (visitedFragments), the
+    resolvers Query.i, G.y, Query.j, B.y are invoked in that order; the pinned getPossibleTypes
+    accepted the document without fa, and the executor then could not determine the object type
+    behind the nullable field i.  The fuel [sdoc_fuel] is enough (no [Some None]). *)
+Definition D1 : sdoc :=
+  {| d_frags := [ {| fr_name := nm "F1"; fr_id := 7; fr_tc := nm "J";
+                     fr_sels := SCons (SField 8 (nm "k3") (nm "y") SNil) SNil |} ];
+     d_sels := SCons (SField 2 (nm "k1") (nm "i")
+                 (SCons (SSpread 3 (nm "F1")) (SCons (SSpread 4 (nm "F1")) (SCons (STypename 5 (nm "k2")) SNil))))
+               (SCons (SField 6 (nm "k4") (nm "j")
+                 (SCons (SInline 9 (Some (nm "B")) (SCons (SField 10 (nm "k5") (nm "y") SNil) SNil)) SNil)) SNil) |}.
+
+Example W_selection_sets :
+  snd (run fixed W [] [] (sdoc_prog (sdoc_fuel D1) D1)) = Done ([7; 7]%nat, None) /\
+  snd (run fixed (erase W []) [fa] [] (sdoc_prog (sdoc_fuel D1) D1)) = Done ([7; 7]%nat, None) /\
+  snd (run fixed W [fa] [] (sdoc_prog (sdoc_fuel D1) D1))
+  = Done ([], Some (Some ([(nm "Query", nm "i"); (nm "G", nm "y"); (nm "Query", nm "j"); (nm "B", nm "y")],
+                          Some (RObj [(nm "k1", RObj [(nm "k3", RLeaf); (nm "k2", RTypename (nm "G"))]);
+                                      (nm "k4", RObj [(nm "k5", RLeaf)])])))) /\
+  snd (run pinned_spread W [] [] (sdoc_prog (sdoc_fuel D1) D1))
+  = Done ([], Some (Some ([(nm "Query", nm "i"); (nm "Query", nm "j"); (nm "B", nm "y")],
+                          Some (RObj [(nm "k1", RNull); (nm "k4", RObj [(nm "k5", RLeaf)])])))).
+Proof. vm_compute. repeat split; reflexivity. Qed.
+
+(** reachability: in W every registered type is reached from the roots, in the orphan witness T is
+    reached only through the gated field (premises of [C13_reachable_fuel_suffices],
+    [C13_exclusion_means_still_reached]) *)
+Example W_reachable :
+  reachable (erase W []) = map nm ["Query"; "A"; "B"; "I"; "J"; "Int"] /\
+  reachable W_orphan = map nm ["Query"; "Int"; "T"] /\
+  reachable (erase W_orphan []) = map nm ["Query"; "Int"].
 Proof. vm_compute. repeat split; reflexivity. Qed.
